@@ -1,3 +1,5 @@
+pub mod c18;
+
 pub fn all() -> Vec<&'static dyn simcore::Property> {
-    vec![]
+    vec![&c18::C18]
 }
